@@ -3,10 +3,96 @@
 
 use crate::lang::*;
 
-pub fn prefixes(_prop: &str) -> Vec<Vec<Step>> {
-    Vec::new()
+fn alloc(kind: Kind, e0: Sel) -> MutOp {
+    MutOp::Alloc { kind, edges: [e0, 0, 0], wedge: 0, len: 0 }
 }
 
-pub fn cases(_prop: &str) -> Vec<(String, Case)> {
-    Vec::new()
+fn new_arena(preset: u8, ops: Vec<MutOp>) -> Step {
+    Step::NewArena { preset, fallible: false, outcome: Outcome::Ok, ops }
+}
+
+fn mutate(ops: Vec<MutOp>) -> Step {
+    Step::Mutate { arena: 0, via_root: true, ops, panic_at: None }
+}
+
+/// A rooted parent of kind `k`, fully marked; then a fresh child adopted through (slot, variant).
+fn adopt_while_marked(k: Kind, slot: u8, variant: u8, weak: bool) -> Vec<Step> {
+    let link = if weak { MutOp::LinkWeak { parent: 0, slot, child: Some(255), variant } } else { MutOp::Link { parent: 0, slot, child: Some(255), variant } };
+    vec![
+        new_arena(0, vec![alloc(k, 0), MutOp::RootSet { slot: 0, child: Some(0) }]),
+        Step::Collect { arena: 0, api: Api::FinishMarking },
+        Step::Mutate { arena: 0, via_root: false, ops: vec![alloc(Kind::D, 0), link], panic_at: None },
+    ]
+}
+
+pub fn prefixes(prop: &str) -> Vec<Vec<Step>> {
+    let mut v: Vec<Vec<Step>> = Vec::new();
+    match prop {
+        "C01" | "C06" | "C10" | "C11" => {
+            for (k, slots) in [(Kind::D, 9u8), (Kind::R, 4), (Kind::LB, 1), (Kind::RB, 2), (Kind::OB, 1)] {
+                for s in 0..slots {
+                    for variant in 0..(if k == Kind::R { 6 } else { 2 }) {
+                        v.push(adopt_while_marked(k, s, variant, false));
+                    }
+                }
+            }
+            for (k, slots) in [(Kind::D, 2u8), (Kind::R, 2), (Kind::RB, 1)] {
+                for s in 0..slots {
+                    for variant in 0..(if k == Kind::R { 4 } else { 1 }) {
+                        v.push(adopt_while_marked(k, s, variant, true));
+                    }
+                }
+            }
+            // stash into a traced set
+            v.push(vec![
+                new_arena(0, vec![alloc(Kind::Set, 0), MutOp::RootSet { slot: 0, child: Some(0) }]),
+                Step::Collect { arena: 0, api: Api::FinishMarking },
+                Step::Mutate { arena: 0, via_root: false, ops: vec![alloc(Kind::D, 0), MutOp::Stash { set: 0, target: 255 }], panic_at: None },
+            ]);
+            // barrier on a traced leaf (non-tracing type)
+            v.push(vec![
+                new_arena(0, vec![alloc(Kind::L, 0), MutOp::RootSet { slot: 0, child: Some(0) }]),
+                Step::Collect { arena: 0, api: Api::FinishMarking },
+                Step::Mutate { arena: 0, via_root: false, ops: vec![MutOp::PokeLeaf { target: 0 }, MutOp::BarrierOnly { variant: 1, parent: 0, child: 0 }, MutOp::BarrierOnly { variant: 4, parent: 0, child: 0 }], panic_at: None },
+            ]);
+        }
+        "C07" => {
+            // finalize through mark_debt with zero debt right after a barrier in the Marked phase
+            v.push(vec![
+                new_arena(0, vec![alloc(Kind::D, 0), MutOp::RootSet { slot: 0, child: Some(0) }]),
+                Step::Collect { arena: 0, api: Api::FinishMarking },
+                Step::AdjustDebt { arena: 0, x: -1e9 },
+                Step::Mutate { arena: 0, via_root: false, ops: vec![alloc(Kind::D, 0), MutOp::Link { parent: 0, slot: 0, child: Some(255), variant: 0 }], panic_at: None },
+                Step::Finalize { arena: 0, forced: false, ops: vec![MutOp::FinalizeScan], panic_at: None, then: Then::Nothing },
+            ]);
+            // a dead object with a child, held weakly by the root: resurrect it
+            v.push(vec![
+                new_arena(0, vec![alloc(Kind::D, 0), alloc(Kind::D, 1), MutOp::RootWeak { slot: 0, child: Some(255) }]),
+                Step::Finalize { arena: 0, forced: true, ops: vec![MutOp::Resurrect { holder: 255, wslot: 0, strong: false }], panic_at: None, then: Then::Nothing },
+            ]);
+        }
+        "C05" => {
+            // weak-only target condemned in the running sweep, queried before the cursor passes
+            v.push(vec![
+                new_arena(0, vec![alloc(Kind::D, 0), alloc(Kind::D, 0), alloc(Kind::D, 0), MutOp::RootWeak { slot: 0, child: Some(255) }, MutOp::RootWeak { slot: 1, child: Some(100) }]),
+                Step::Finalize { arena: 0, forced: true, ops: vec![], panic_at: None, then: Then::StartSweeping },
+                mutate(vec![MutOp::Upgrade { holder: 255, wslot: 0, store: None }, MutOp::Upgrade { holder: 255, wslot: 1, store: Some((0, 0, 0)) }]),
+            ]);
+        }
+        _ => {}
+    }
+    v
+}
+
+pub fn cases(prop: &str) -> Vec<(String, Case)> {
+    // every prefix is also run as it stands, completed by a Settle
+    prefixes(prop)
+        .into_iter()
+        .enumerate()
+        .map(|(i, mut steps)| {
+            steps.push(Step::Settle { arena: 0 });
+            steps.push(mutate(vec![MutOp::ReadAll]));
+            (format!("template {prop}/{i}"), Case { steps })
+        })
+        .collect()
 }
